@@ -289,6 +289,13 @@ func (x *Exec) applyModifies(fr *Frame, st, old *State, fn *ssa.Function, ct *Co
 		env := x.newEnv(fr, old, old, vars, fn)
 		if pfx, obj, ok := env.lvalue(e); ok {
 			singles = append(singles, objField{pfx, obj})
+			if pfx == kBufOwned || pfx == kBufLen {
+				// ghost buffer state: the location named in the post-state may change too
+				env2 := x.newEnv(fr, st, old, vars, fn)
+				if _, obj2, ok := env2.lvalue(e); ok && obj2.S != obj.S {
+					singles = append(singles, objField{pfx, obj2})
+				}
+			}
 		} else {
 			x.vc.note("modifies entry %q of %s not understood: whole frame havocked", m, ct.Key)
 			return
@@ -312,6 +319,19 @@ func (x *Exec) applyModifies(fr *Frame, st, old *State, fn *ssa.Function, ct *Co
 		}
 		oldT := x.heapGet(old, k, fs.keys[k])
 		newT := st.heap[k]
+		if k == kBufLen {
+			// buffer lengths: the frame covers the buffers somebody owned before the call; free
+			// pool buffers may be taken, used and returned by the callee (nobody can observe them)
+			x.vc.ctr++
+			q := Term{fmt.Sprintf("b!q%d", x.vc.ctr), SInt}
+			cs := []Term{Select(x.heapGet(old, kBufOwned, arrOf(SBool)), q)}
+			for _, o := range objs {
+				cs = append(cs, Neq(q, o))
+			}
+			body := Implies(And(cs...), Eq(Select(newT, q), Select(oldT, q)))
+			x.assume(st, Term{fmt.Sprintf("(forall ((%s Int)) (! %s :pattern (%s)))", q.S, body.S, Select(newT, q).S), SBool})
+			continue
+		}
 		if len(objs) == 0 {
 			st.heap[k] = oldT
 			continue
@@ -418,6 +438,11 @@ func (x *Exec) invoke(fr *Frame, st *State, site ssa.Instruction, c *ssa.CallCom
 	}
 	impls := x.eng.implementers(itype, mname)
 	if ikey == "(error).Error" {
+		return external(st)
+	}
+	if !closed && x.eng.exportedHomeIface(itype) {
+		// public extension point (Codec, TypeResolver, ...): implementations are arbitrary user
+		// code honouring the interface; the package's own ones are verified separately
 		return external(st)
 	}
 	if !closed {
